@@ -271,7 +271,10 @@ func flexLayout(context *layoutContext, box_ Box, bottomSpace pr.Float, skipStac
 			newChild.Box().Style.SetMaxHeight(pr.Dimension{Value: pr.Inf, Unit: pr.Px}.ToValue())
 			newChild, _, _ = blockLevelLayout(context, newChild.(bo.BlockLevelBoxITF),
 				-pr.Inf, childSkipStack, parentBox, pageIsEmpty, nil, nil, nil, false, -1)
-			contentSize := newChild.Box().Height.V()
+			contentSize := pr.Float(0)
+			if newChild != nil { // nothing of the item may be rendered (e.g. cancelled by footnote-policy: block)
+				contentSize = newChild.Box().Height.V()
+			}
 			child.MinHeight = pr.Min(specifiedSize, contentSize)
 		}
 
@@ -345,7 +348,10 @@ func flexLayout(context *layoutContext, box_ Box, bottomSpace pr.Float, skipStac
 					newChild.Box().Width = pr.Inf
 					newChild, _, _ = blockLevelLayout(context, newChild.(bo.BlockLevelBoxITF), -pr.Inf, childSkipStack,
 						parentBox, pageIsEmpty, absoluteBoxes, fixedBoxes, nil, false, -1)
-					child.FlexBaseSize = newChild.Box().MarginHeight()
+					child.FlexBaseSize = 0
+					if newChild != nil { // nothing of the item may be rendered
+						child.FlexBaseSize = newChild.Box().MarginHeight()
+					}
 				}
 			} else if styleAxis.S == "min-content" {
 				child.Style.Set(axis.Key(), pr.SToV("auto"))
@@ -359,7 +365,10 @@ func flexLayout(context *layoutContext, box_ Box, bottomSpace pr.Float, skipStac
 					newChild.Box().Width = pr.Float(0)
 					newChild, _, _ = blockLevelLayout(context, newChild.(bo.BlockLevelBoxITF), -pr.Inf, childSkipStack,
 						parentBox, pageIsEmpty, absoluteBoxes, fixedBoxes, nil, false, -1)
-					child.FlexBaseSize = newChild.Box().MarginHeight()
+					child.FlexBaseSize = 0
+					if newChild != nil { // nothing of the item may be rendered
+						child.FlexBaseSize = newChild.Box().MarginHeight()
+					}
 				}
 			} else if styleAxis.Unit == pr.Px {
 				// TODO: should we add padding, borders and margins?
